@@ -184,6 +184,15 @@ theorem gen_appender_shapes :
     skel_write_use_plain_writev = [.call "writev", .call "deallocate", .call "clear", .call "clear"] ∧
     skel_close = [.call "joinable", .call "push", .call "join"] ∧ skel_write = [.call "push"] := by decide
 
+/-- Queue pairing rule (bounded_queue.h): a producer that sleeps on the slot futex
+(`USE_FUTEX_WAIT`) is woken only by a consumer popping with `USE_FUTEX_WAKE`.  `keep_writing` pops
+without wake, so neither `write()` nor `close()` may push with futex wait — before the repair
+67478f3 `close()` used the default `push<true, true, true>` and slept forever when it found the
+queue full (checks/C20.py runs that schedule on the real code on every run). -/
+theorem gen_queue_pairing :
+    (writePushFutexWait = true → popFutexWake = true) ∧ (closePushFutexWait = true → popFutexWake = true) := by
+  decide
+
 /-- **appender_each_once_ordered.**  Take any event history of the model (any number of logging
 threads reserving / publishing entries, `close()`, any batching `round n1 n2 fds` of the writer with
 any descriptors, i.e. any rotation) after which `keep_writing` has returned.  Let `pre` be the
